@@ -1,0 +1,12 @@
+//go:build verif
+// +build verif
+
+package runtime
+
+// Read-only accessors used by the conformance harness (build tag "verif").
+
+// VerifSafetyFlags returns the compliance flags the function has declared.
+func (f *GoFunction) VerifSafetyFlags() ComplianceFlags { return f.safetyFlags }
+
+// VerifName returns the name the function was registered with.
+func (f *GoFunction) VerifName() string { return f.name }
